@@ -99,7 +99,7 @@ var kindsC02 = []wk{
 
 var profC02 = profile{
 	must: []string{"auth"}, may: []string{"lock", "logout", "otp", "recover", "remember", "confirm"},
-	setups: []string{"totp", "sms", "recovery"}, kinds: kindsC02, minOps: 8, maxOps: 36,
+	setups: []string{"totp", "sms", "recovery"}, kinds: kindsC02, minOps: 14, maxOps: 32,
 	accts: [2]int{3, 4}, browsers: [2]int{1, 2}, middlewares: []string{"", "", "remember"},
 	tweak: func(t *rapid.T, c *harness.Config) {
 		if !c.HasSetup("totp") && !c.HasSetup("sms") {
